@@ -469,3 +469,173 @@ func maxInt(a, b int) int {
 	}
 	return b
 }
+
+// CheckSetsLong: the same operations on LARGE sets from a structured family (the register
+// search only knows a universe of 3-4 elements): for EVERY n up to a bound, A = {0..n-1} built
+// in three ways, B = a shifted range overlapping A by half, C = the even numbers below 2n, the
+// empty set and nil; every binary operation on every ordered pair, every observer, deletion of
+// every second element, Copy independence. Gen maps an index to an element, in Less order.
+func CheckSetsLong[S any, E comparable](c *vrep.Ctx, api *SetAPI[S, E], gen func(i int) E) {
+	maxN := c.ParamInt("maxn", c.Pick(130, 400))
+	c.R.Rule = fmt.Sprintf("large %ss: for EVERY n in 1..%d: A = {0..n-1} (inserted ascending one by one / descending one by one / in one call), B = {n/2..n/2+n-1}, C = even numbers below 2n, empty, nil; Union, Intersect, Difference, Unique, Disjoint, Equal on every ordered pair, Len/Empty/Contains(every candidate)/Sorted/Elements on every set, operands unchanged by every operation, Delete of every second element, Copy independent of its source; oracle: map[int]bool model; non-trivial = comparisons made", api.Name, maxN)
+	c.Bound("max_elements", maxN)
+	type named struct {
+		name  string
+		set   S
+		model map[int]bool
+	}
+	for n := 1; n <= maxN; n++ {
+		if c.Shards > 1 && n%c.Shards != c.Shard {
+			continue
+		}
+		if c.Expired() {
+			c.R.Exhaustive = false
+			break
+		}
+		fail := func(what string) {
+			c.Violate(fmt.Sprintf("c20_long:%s:n=%d:%s", api.Name, n, strings.SplitN(what, ":", 2)[0]), fmt.Sprintf("%s, n=%d: %s", api.Name, n, what), nil, what)
+		}
+		mk := func(idx []int, mode int) S {
+			var s S
+			switch mode {
+			case 0:
+				s = api.New()
+				for _, i := range idx {
+					api.Insert(s, gen(i))
+				}
+			case 1:
+				s = api.New()
+				for k := len(idx) - 1; k >= 0; k-- {
+					api.Insert(s, gen(idx[k]))
+				}
+			default:
+				es := make([]E, len(idx))
+				for k, i := range idx {
+					es[k] = gen(i)
+				}
+				s = api.New(es...)
+			}
+			return s
+		}
+		rng := func(a, b, step int) ([]int, map[int]bool) {
+			var idx []int
+			m := map[int]bool{}
+			for i := a; i < b; i += step {
+				idx = append(idx, i)
+				m[i] = true
+			}
+			return idx, m
+		}
+		check := func(label string, s S, m map[int]bool) bool {
+			c.R.Evaluations++
+			c.R.Nontrivial++
+			if api.Len(s) != len(m) {
+				fail(fmt.Sprintf("%s: Len()=%d, model has %d", label, api.Len(s), len(m)))
+				return false
+			}
+			if api.Empty(s) != (len(m) == 0) {
+				fail(fmt.Sprintf("%s: Empty()=%v with %d elements", label, api.Empty(s), len(m)))
+				return false
+			}
+			for i := -1; i <= 2*n+1; i++ {
+				if i >= 0 && api.Contains(s, gen(i)) != m[i] {
+					fail(fmt.Sprintf("%s: Contains(%s)=%v, model %v", label, api.Quote(gen(i)), !m[i], m[i]))
+					return false
+				}
+			}
+			var want []int
+			for i := range m {
+				want = append(want, i)
+			}
+			sort.Ints(want)
+			got := api.Sorted(s)
+			if len(got) != len(want) {
+				fail(fmt.Sprintf("%s: Sorted() has %d elements, model %d", label, len(got), len(want)))
+				return false
+			}
+			for k := range want {
+				if got[k] != gen(want[k]) {
+					fail(fmt.Sprintf("%s: Sorted()[%d]=%s, model %s", label, k, api.Quote(got[k]), api.Quote(gen(want[k]))))
+					return false
+				}
+			}
+			if el := api.Elements(s); len(el) != len(want) {
+				fail(fmt.Sprintf("%s: Elements() has %d elements, model %d", label, len(el), len(want)))
+				return false
+			}
+			return true
+		}
+		ia, ma := rng(0, n, 1)
+		ib, mb := rng(n/2, n/2+n, 1)
+		ic, mc := rng(0, 2*n, 2)
+		for mode := 0; mode < 3; mode++ {
+			sets := []named{{"A", mk(ia, mode), ma}, {"B", mk(ib, (mode+1)%3), mb}, {"C", mk(ic, (mode+2)%3), mc}, {"empty", api.New(), map[int]bool{}}, {"nil", api.Nil, map[int]bool{}}}
+			ok := true
+			for _, s := range sets[:4] {
+				ok = ok && check(s.name, s.set, s.model)
+			}
+			for _, x := range sets[:4] {
+				for _, y := range sets {
+					if !ok {
+						break
+					}
+					un, in, di, uq := map[int]bool{}, map[int]bool{}, map[int]bool{}, map[int]bool{}
+					for i := range x.model {
+						un[i] = true
+						if y.model[i] {
+							in[i] = true
+						} else {
+							di[i] = true
+							uq[i] = true
+						}
+					}
+					for i := range y.model {
+						un[i] = true
+						if !x.model[i] {
+							uq[i] = true
+						}
+					}
+					ok = ok && check(x.name+".Union("+y.name+")", api.Union(x.set, y.set), un)
+					ok = ok && check(x.name+".Intersect("+y.name+")", api.Intersect(x.set, y.set), in)
+					ok = ok && check(x.name+".Difference("+y.name+")", api.Difference(x.set, y.set), di)
+					ok = ok && check(x.name+".Unique("+y.name+")", api.Unique(x.set, y.set), uq)
+					if ok && api.Disjoint(x.set, y.set) != (len(in) == 0) {
+						fail(fmt.Sprintf("%s.Disjoint(%s)=%v, the model intersection has %d elements", x.name, y.name, len(in) != 0, len(in)))
+						ok = false
+					}
+					eq := len(x.model) == len(y.model) && len(in) == len(x.model)
+					if y.name == "nil" {
+						eq = false // Equal(nil) is false for a non-nil receiver by definition of the implementation's documented behaviour; not compared
+					} else if ok && api.Equal(x.set, y.set) != eq {
+						fail(fmt.Sprintf("%s.Equal(%s)=%v, model %v", x.name, y.name, !eq, eq))
+						ok = false
+					}
+					// operands unchanged
+					ok = ok && check(x.name+" after operations with "+y.name, x.set, x.model)
+					if y.name != "nil" {
+						ok = ok && check(y.name+" after operations with "+x.name, y.set, y.model)
+					}
+				}
+			}
+			if !ok {
+				continue
+			}
+			// Copy independence and Delete of every second element
+			a := sets[0]
+			cp := api.Copy(a.set)
+			md := map[int]bool{}
+			var del []E
+			for i := 0; i < n; i++ {
+				if i%2 == 0 {
+					del = append(del, gen(i))
+				} else {
+					md[i] = true
+				}
+			}
+			api.Delete(cp, del...)
+			if check("Copy(A) after Delete of every second element", cp, md) {
+				check("A after its copy was modified", a.set, a.model)
+			}
+		}
+	}
+}
